@@ -186,6 +186,48 @@ Proof.
     + cbn [shist hist_ok succ_of]. split; [exact (i_hok _ I)|]. intros j l v X. discriminate.
 Qed.
 
+
+(* ------------------------------------------------------------------ reordering of the pending undo batch *)
+
+Lemma handle_eqb_eq x y : handle_eqb x y = true -> x = y.
+Proof.
+  unfold handle_eqb. intros H. repeat (apply andb_true_iff in H; destruct H as [H ?]).
+  destruct x, y; cbn in *.
+  repeat match goal with
+         | E : (_ =? _) = true |- _ => apply N.eqb_eq in E
+         | E : (_ =? _)%Z = true |- _ => apply Z.eqb_eq in E
+         | E : Bool.eqb _ _ = true |- _ => apply Bool.eqb_prop in E
+         end.
+  subst. reflexivity.
+Qed.
+
+Lemma pend_eqb_eq p q : pend_eqb p q = true -> p = q.
+Proof.
+  unfold pend_eqb. intros H. apply andb_true_iff in H. destruct H as [H1 H2]. apply handle_eqb_eq in H2.
+  destruct p as [k h], q as [k' h']. cbn in *. subst. destruct k, k'; cbn in H1; try discriminate; reflexivity.
+Qed.
+
+Lemma step_LPermute s i pd s' : Inv s -> step strict s (LPermute i pd) = Some s' -> Inv s'.
+Proof.
+  intros I H. open_tx H t Et. destruct (_ && _) eqn:E; [|discriminate]. inversion H; subst s'.
+  apply andb_true_iff in E. destruct E as [E Hperm]. apply andb_true_iff in E. destruct E as [H0 H3]. live_pc.
+  pose proof (i_tx _ I _ _ Et) as O.
+  assert (Hh : hold_pc (t_pc t) = true) by (rewrite H3; reflexivity).
+  assert (SUB : forall x, In x pd -> In x (t_pend t)).
+  { intros x Hx. unfold perm_of in Hperm. apply andb_true_iff in Hperm. destruct Hperm as [Hp1 _]. apply andb_true_iff in Hp1. destruct Hp1 as [_ H4].
+    pose proof (forallb_In _ _ _ H4 Hx) as Hex. cbn beta in Hex.
+    apply existsb_exists in Hex. destruct Hex as (y & Hy & Heq). apply pend_eqb_eq in Heq. subst y. exact Hy. }
+  eapply inv_local with (t := t); try reflexivity; try eassumption.
+  constructor; cbn [with_pend t_crashed t_rem t_marked t_pc t_pend t_claimed t_plog t_upd]; unfold upd_lids; cbn [t_upd]; try discriminate.
+  - exact (o_norem _ _ _ O).
+  - exact (o_nd _ _ _ O).
+  - intros _ _. exact (o_lock _ _ _ O H0 Hh).
+  - intros _ k h Hin. destruct (o_pend _ _ _ O H0 k h (SUB _ Hin)) as (Hk & Hl & Hex). rewrite H3 in Hk. split; [exact Hk|]. split; [exact Hl|exact Hex].
+  - intros _ _. exact (o_pres _ _ _ O H0 Hh).
+  - exact (o_plog _ _ _ O).
+  - intros [X|X]; discriminate.
+Qed.
+
 (* ------------------------------------------------------------------ every step preserves the invariant *)
 
 Theorem inv_step s lab s' : Inv s -> step strict s lab = Some s' -> Inv s'.
@@ -209,6 +251,7 @@ Proof.
   - eapply step_LAge; eassumption.
   - eapply step_LPrio; eassumption.
   - eapply step_LAddNode; eassumption.
+  - eapply step_LPermute; eassumption.
 Qed.
 
 Theorem inv_reachable s0 s : wf_init s0 -> reachable strict s0 s -> Inv s.
